@@ -33,7 +33,7 @@ ATTAIN_ONLY = ["bias", "diff", "ratio", "dmb", "mbias", "rmsf"]
 def plan(tier, seed):
     n = 60 if tier == "quick" else 2500
     shards = [{"part": "vectors", "seed": seed, "k": k, "n": n} for k in range(10)]
-    nd = 6 if tier == "quick" else 120
+    nd = 15 if tier == "quick" else 150
     shards += [{"part": "data", "seed": seed, "k": k, "n": nd} for k in range(6)]
     return shards
 
